@@ -536,8 +536,10 @@ func (c *Check) disableEnablePairing(rule string) {
 		a := NewAnalysis(p, fn)
 		a.Run()
 		n := 0
-		for _, b := range fn.Blocks {
-			for _, in := range b.Instrs {
+		var instrs []ssa.Instruction
+		allInstrs(fn, func(in ssa.Instruction) { instrs = append(instrs, in) })
+		{
+			for _, in := range instrs {
 				st, ok := in.(*ssa.Store)
 				if !ok {
 					continue
